@@ -9,3 +9,5 @@ UNDECIDED = "`each once` across blocks relies on the writer never storing an ent
 ASSUMPTIONS = [K.A_BYTES, K.A_PRED, K.A_TABLE, "bigBed entries within a block are start-sorted (guard C13-G6)"]
 OBLIGATIONS = [K.BED_SECTION_W] + K.SPANS + [K.BED_KEEP, K.OVERLAPS, K.QUERY_ARGS, K.BED_BLOCK_R, K.BED_GUARDS] + K.CIR_READER
 OBLIGATIONS = OBLIGATIONS + [K.SEARCH_ORDER, K.CACHE, K.CACHED_SIBS, K.INTERVAL_SIBS]
+OBLIGATIONS = OBLIGATIONS + [K.REOPEN]
+OBLIGATIONS = OBLIGATIONS + [K.ARG_NAMES]
